@@ -34,6 +34,7 @@ def plan(tier, seed):
     specs.append({"name": "commands", "kind": "commands", "budget_s": 100 if tier == "quick" else 600,
                   "schemes": gen.SCHEMES if tier == "thorough" else ["CJJ14.PiBas", "CJJ14.Pi2Lev", "DP17.Pi", "CT14.Pi"]})
     specs.append({"name": "big-result", "kind": "big", "budget_s": 200})
+    specs.append({"name": "sibling-services", "kind": "siblings", "budget_s": 150 if tier == "quick" else 400})
     # configuration uploads whose websocket message is EXACTLY k * 65536 + d bytes long (d = -1, 0, 1), with a wire
     # conservation monitor: every message one side sent was received, byte for byte, by the other
     specs.append({"name": "wire-sizes", "kind": "wire", "budget_s": 150 if tier == "quick" else 600,
@@ -233,6 +234,14 @@ async def run_flow(env, server, acc, scheme, cid, cfg, db_json, recreate_mask, r
             if r[0] != "ok":
                 viol(f"step-failed:{name}:{r[0]}", f"workflow step {name} did not complete: {r[0]} {r[1]!r:.80}")
                 return
+            if restart_at == "after-" + name:
+                await flow.drop()
+                await server.restart()
+                acc.count("server_restarts")
+                acc.count("server_restarts_between_the_two_uploads")
+                if i < 4:
+                    recreate_mask = list(recreate_mask)
+                    recreate_mask[i] = 1
         words = list(flow.db)[:2] + [b"nope"] + list(flow.db)[:1]
         for j, w in enumerate(words):
             rec = bool(recreate_mask[4]) if j == 0 else (rng.random() < 0.5)
@@ -276,7 +285,7 @@ async def flows(spec, acc, ctx):
     scheme = spec["scheme"]
     rng = ctx.rng
     masks = list(itertools.product([0, 1], repeat=5))
-    restarts = ["none", "before-search-0", "before-search-2"]
+    restarts = ["none", "after-upload-config", "before-search-0", "before-search-2"]
     n = 0
     for d in range(spec["dbs"]):
         cid, cfg = scheme_config(scheme, rng)
@@ -297,6 +306,108 @@ async def flows(spec, acc, ctx):
                                 "server_restart": restart_at})
     acc.add("schemes_enumerated", scheme)
     await server.stop()
+
+
+SIBLING_VARIANTS = {
+    "DP17.Pi": [{"hash_h": "sha256"}, {"hash_h": "md5"}, {"param_L": 2}],
+    "CJJ14.PiBas": [{"param_lambda": 16, "prf_f_output_length": 16}],
+    "CJJ14.PiPack": [{"param_B": 8}, {"param_identifier_size": 16}],
+    "CJJ14.PiPtr": [{"param_b": 8}, {"param_B": 8}],
+    "CJJ14.Pi2Lev": [{"param_B": 8, "param_B_prime": 8, "param_b": 8, "param_b_prime": 8}],
+    "CGKO06.SSE1": [{"param_l": 16}, {"param_k": 16}],
+    "CGKO06.SSE2": [{"param_l": 16}, {"param_k": 16}],
+    "CT14.Pi": [{"param_l": 16}, {"param_k_prime": 16}],
+    "ANSS16.Scheme3": [{"param_l": 16, "param_l_prime": 16}, {"param_lambda": 16}],
+}
+
+
+async def siblings(spec, acc, ctx):
+    """Two services of ONE scheme on one server whose configurations differ in a single entry (for DP17 only in the
+    name of a primitive), holding the same database: every step of A is followed by the same step of B, searches
+    alternate with a fresh client object (a new connection) each time. Each service must get ITS answers."""
+    env = wh.setup_env()
+    server = await wh.Server().start()
+    rng = ctx.rng
+    try:
+        for scheme in gen.SCHEMES:
+            for over in SIBLING_VARIANTS[scheme]:
+                if ctx.out_of_time():
+                    return
+                cfg_a = gen.default_config(scheme)
+                if scheme == "CGKO06.SSE1":
+                    cfg_a.update(param_s=64, param_dictionary_size=16)
+                cfg_b = dict(cfg_a, **over)
+                if cfg_b.get("param_identifier_size") != cfg_a.get("param_identifier_size"):
+                    db_json = json_database(rng, scheme, cfg_a)
+                    db_json_b = json_database(rng, scheme, cfg_b)
+                else:
+                    db_json = db_json_b = json_database(rng, scheme, cfg_a)
+                    if scheme == "CGKO06.SSE2":
+                        cfg_b["param_n"] = cfg_a["param_n"]
+                fa = Flow(env, server, acc, scheme, cfg_a, db_json)
+                fb = Flow(env, server, acc, scheme, cfg_b, db_json_b)
+                if rng.random() < 0.5:
+                    fa, fb = fb, fa
+                case = {"scheme": scheme, "sibling_difference": over, "siblings": True}
+                acc.count("workflows", 2)
+                acc.count("sibling_pairs")
+                try:
+                    bad = False
+                    for name in STEPS[:5]:
+                        for f in (fa, fb):
+                            r = await f.step(name, True)
+                            if r[0] == "timeout":
+                                acc.count("timeouts")
+                                bad = True
+                                break
+                            if r[0] != "ok":
+                                acc.violation(f"e2e:{gen.SHORT[scheme]}:siblings:step-failed:{name}:{r[0]}",
+                                              f"{scheme}: with a sibling service that differs in {over} on the same "
+                                              f"server, step {name} did not complete: {r[0]} {r[1]!r:.80}", case)
+                                bad = True
+                                break
+                        if bad:
+                            break
+                    if bad:
+                        continue
+                    for rnd in range(2):
+                        for f in (fa, fb, fb, fa):
+                            w = rng.choice(list(f.db))
+                            r = await f.step("search", True, keyword=w)
+                            acc.count("searches")
+                            if r[0] == "timeout":
+                                acc.count("timeouts")
+                                bad = True
+                                break
+                            if r[0] != "ok":
+                                acc.violation(f"e2e:{gen.SHORT[scheme]}:siblings:no-result-delivered:{r[0]}",
+                                              f"{scheme}: sibling services differing in {over}: {r[0]} {r[1]!r:.60}", case)
+                                bad = True
+                                break
+                            want = f.db[w]
+                            acc.count("searches_compared")
+                            acc.count("sibling_searches_compared")
+                            ok = (set(r[1]) == set(want) and len(r[1]) == len(set(want))) if scheme in gen.SET_RESULT \
+                                else list(r[1]) == want
+                            if not ok:
+                                acc.violation(f"e2e:{gen.SHORT[scheme]}:siblings:wrong-result",
+                                              f"{scheme}: two services on one server whose configurations differ in {over}: "
+                                              f"the result delivered for {w!r} has {len(r[1])} ids, the database holds "
+                                              f"{len(want)}", case)
+                                bad = True
+                                break
+                        if bad:
+                            break
+                    if not bad:
+                        acc.add("distinct", fp("siblings", scheme, sorted(over)))
+                        acc.add("sibling_schemes", scheme)
+                except Exception as e:
+                    acc.violation(f"e2e:siblings:raised:{exc_site(e)}", f"{scheme}: {type(e).__name__}: {e}", case)
+                finally:
+                    await fa.drop()
+                    await fb.drop()
+    finally:
+        await server.stop()
 
 
 async def commands_layer(spec, acc, ctx):
@@ -695,6 +806,8 @@ def run_shard(spec, acc, ctx):
         asyncio.run(two_clients(spec, acc, ctx))
     elif k == "wire":
         asyncio.run(wire_sizes(spec, acc, ctx))
+    elif k == "siblings":
+        asyncio.run(siblings(spec, acc, ctx))
     elif k == "procs":
         real_processes(spec, acc, ctx)
     acc.count("cases", acc.counters.get("workflows", 0) + acc.counters.get("command_workflows", 0) +
@@ -729,11 +842,18 @@ def finish(m, tier, seed):
         inc.append(f"{c.get('timeouts')} waits ended without result or closure")
     if c.get("server_restarts", 0) < 9:
         inc.append("fewer than 9 server restarts exercised")
+    if len(m["sets"].get("sibling_schemes", [])) < 9:
+        inc.append("sibling services (two configurations of one scheme on one server) did not cover the nine schemes")
+    if c.get("server_restarts_between_the_two_uploads", 0) < 9:
+        inc.append("fewer than 9 server restarts between the configuration upload and the index upload")
     if c.get("wire.config_messages_of_exact_target_size", 0) < 6:
         inc.append("fewer than 6 configuration messages of an exact k*65536+d size were delivered")
     if c.get("command_searches", 0) < 8 or c.get("big_result_workflows", 0) < 1:
         inc.append("commands layer / big-result workflow not exercised")
     cov = {
+        "sibling_service_pairs": c.get("sibling_pairs", 0),
+        "sibling_searches_compared": c.get("sibling_searches_compared", 0),
+        "server_restarts_between_the_two_uploads": c.get("server_restarts_between_the_two_uploads", 0),
         "wire": {"config_messages_of_exact_size": c.get("wire.config_messages_of_exact_target_size", 0),
                  "sizes": sorted(m["sets"].get("wire.sizes_hit", [])),
                  "messages_checked_for_conservation": c.get("wire.messages_checked_for_conservation", 0)},
